@@ -12,6 +12,19 @@ TRUSTED_BASE = [
     "window samples are taken from the implementation (Window(N, name).data): window shape is C20's business",
     "float64 rounding is not modelled: model/implementation agreement is to relative tolerance 1e-9 of the output's max-norm; "
     "the oracle checks every bin to 1e-9 of that bin's own reference value plus 1e-12 of the largest bin",
+    "per-bin check (every func / class / 2-D column case with N*NFFT <= 4e7): reference = the defining DFT sum of x*w in "
+    "numpy.longdouble (64-bit mantissa, eps 1.08e-19; twiddle table cos/sin(2 pi m/NFFT) in longdouble, phase index reduced mod "
+    "NFFT in integers; no FFT routine involved; its own error is about eps_longdouble log2(NFFT) ||x*w||_2, 2000 times below the "
+    "double precision FFT's and 2e5 times below the allowance d); allowed error at bin k = 400 eps P_k + (2 |X_k| d + d^2)/N with "
+    "d = 100 eps log2(2 NFFT) ||x*w||_2: the forward error model of a double precision FFT (amplitude error d whatever the size "
+    "of the bin) with its constants MEASURED on the unchanged code: worst ratio 2.08 against the same model with constants 4 and 1 "
+    "over 24 000 records (N <= 1031 incl. prime NFFT, 29 windows, amplitudes 1e-100..1e100), so the margin is 48.  A bin is thereby "
+    "judged relative to ITS OWN size as soon as |X_k| exceeds a few d, i.e. down to about -270 dB under the largest bin; below "
+    "that floor nothing is claimed, and a bin returned as exactly 0.0 above it is reported as such.  numpy.longdouble must be wider "
+    "than float64 (checked at import; otherwise the per-bin check is skipped and PARTIAL says so)",
+    "Wiener-Khinchin per bin: |correlogram_k - P_k| <= 16 eps N sum|x|^2 (P_k in longdouble); the correlogram sums N products "
+    "per lag in double precision, so unlike the periodogram it resolves only about eps x (N x total power) per bin: constant 16 = "
+    "38 x the worst ratio (0.42) measured on the unchanged code over 12 000 records (N = 2..257, both correlation methods)",
     "the Lean model is evaluated for N <= 600 only (list-based DFT sum); longer records are checked by the oracle alone",
 ]
 PARTIAL = []
@@ -25,7 +38,14 @@ RULE = ("random data classes (noise, constant, integer, integer dtype, Python li
         "N = 1..96 plus {128, 500, 1024, 4099}; 1-D function, class (.psd, P(), P.run(), FourierSpectrum.periodogram()), "
         "2-D column-wise (function and class; array, nested list, Fortran order, transposed view; all data classes; "
         "amplitudes 2^-30 and 2^17), and Wiener-Khinchin cases (N = 1..32, 64, 100; Y omitted or given; both correlation "
-        "methods); non-trivial = N >= 2 and non-zero data; "
+        "methods); coherent high-dynamic-range records (data classes hdr-lines: a strong on-bin tone plus 1-3 weak on-bin tones, "
+        "amplitude ratios 1e-3 .. 3e-13, rectangular / rectangle window, NFFT = N, 2N, 3N, 4N, N = 8..256 incl. odd and prime; "
+        "hdr-skirt: constant or a pure on-bin tone under the 12 fast-decaying windows (3 in 4) or any window, N = 64..1024 "
+        "(thorough: ..2048), NFFT in {N, N+1, 2N-1, 2N, 2^k, 4N}; hdr-int: integer dtype / list, 10^e (+-1 at Nyquist or DC) plus a "
+        "1,0,-1,0 pattern, e = 6..14; overall amplitudes 1, 2^-30, 1e-100, 1e100; real and complex; function, class in its four "
+        "calling forms, 2-D with unrelated columns of size 1e-12 .. 1e7 beside them (all four containers / layouts), and "
+        "Wiener-Khinchin with lines down to 1e-6); EVERY func / class / 2-D case, old and new, is also compared bin by bin with "
+        "the extended-precision definition on the bin's own scale (TRUSTED_BASE; of the 4099-point records one per thorough round); non-trivial = N >= 2 and non-zero data; "
         "distinct = distinct (kind, shape, NFFT, NFFT spelling, window, data class, api, real/complex, data hash)")
 
 _DIRECT_MAX = 70000          # N*NFFT up to which the reference is the DFT sum written out (no FFT routine involved)
@@ -64,6 +84,136 @@ def _ref(x, w, nfft):
     return ref
 
 
+# ---- per-bin check against an extended-precision reference -------------------------------------------
+#
+# The max-norm comparisons above cannot see a bin that is wrong by 100 % of its own value when that value lies more than
+# 180-240 dB under the largest bin of the record, although "large-dynamic-range data" is inside the quantifier and the
+# property says "at every returned bin".  What can be demanded of such a bin?  The library returns |X^|^2/N with X^ the double
+# precision FFT of fl(x*w).  A double precision FFT (and the rounding of the products x*w) perturbs every X_k by at most
+# d = c eps log2(NFFT) ||x*w||_2 in AMPLITUDE, independently of |X_k|; hence
+#       | |X^_k|^2/N - |X_k|^2/N |  <=  (2 |X_k| d + d^2)/N  +  (a few ulp of the value: abs, square, division),
+# i.e. a bin is returned with relative error ~ 2 d/|X_k|: with d ~ 1e-15 of the peak amplitude a line 180 dB under the peak
+# still has 6 correct digits.  The resolution floor is d in amplitude = d^2/N in power = eps^2 x peak power (about -300 dB),
+# NOT eps x peak power (-156 dB).  Constants c and "a few" are measured on the UNCHANGED code (/tmp-style sweep kept in the
+# comment of _PB_C below) and enter with a margin >= 30.
+_LD = np.longdouble
+_EPS = float(np.finfo(float).eps)
+_LD_OK = float(np.finfo(_LD).eps) < 1e-18          # x86 extended precision: eps = 1.08e-19
+_PI_LD = _LD("3.14159265358979323846264338327950288")
+_LD_MAX = 4.0e7              # N*NFFT up to which the extended-precision reference is evaluated (chunked; 4099 x 8198 = 1.4 s)
+# unchanged code, 24 000 records (N = 1..99, 127..1031 incl. primes; 29 windows; noise / constant / on-bin tone / sums of on-bin
+# tones with amplitude ratios down to 1e-12 / 2^+-20 dynamic range / integers; real and complex; NFFT in {N, N+1, 2N-1, 2N,
+# 3N, 4N, N+j}; amplitudes 1, 2^-40, 1e-100, 1e100): worst  err_k / (4 eps P_k + (2|X_k| d1 + d1^2)/N),  d1 = eps log2(2 NFFT) ||xw||_2,
+# was 2.08 (tone, N = 1021, NFFT = 1022); the thorough tier (71 000 cases) stays below 2.5.  Both constants x 100 => margin 40-48.
+_PB_C = 100.0                # d = _PB_C * eps * log2(2 NFFT) * ||x*w||_2
+_PB_R = 400.0                # relative term: _PB_R * eps * P_k
+_WK_C = 16.0                 # Wiener-Khinchin: |correlogram_k - P_k| <= _WK_C * eps * N * sum|x|^2   (worst measured ratio 0.42)
+_worst_pb = [0.0]
+_worst_wk = [0.0]
+_tw_cache = {}
+_mat_cache = {}
+
+if not _LD_OK:
+    PARTIAL.append("numpy.longdouble is not wider than float64 on this platform: the per-bin (own-scale) comparison of C01 and the "
+                   "per-bin Wiener-Khinchin bound are NOT evaluated; only the max-norm comparisons are")
+
+
+def _twiddles(nfft):
+    t = _tw_cache.get(nfft)
+    if t is None:
+        if len(_tw_cache) > 6:
+            _tw_cache.clear()
+        a = np.arange(nfft, dtype=_LD) * (2 * _PI_LD / _LD(nfft))
+        t = _tw_cache[nfft] = (np.cos(a), np.sin(a))
+    return t
+
+
+def _dft_ld(yr, yi, nfft, K):
+    """bins 0..K-1 of DFT_NFFT of the zero-padded longdouble record yr + i yi (yi may be None): the defining sum, row by row"""
+    N = len(yr)
+    ct, st = _twiddles(nfft)
+    n = np.arange(N, dtype=np.int64)
+    Xr = np.empty(K, dtype=_LD)
+    Xi = np.empty(K, dtype=_LD)
+    step = max(1, 250000 // max(N, 1))
+    for k0 in range(0, K, step):
+        k1 = min(K, k0 + step)
+        key = (N, nfft, k0, k1)
+        cs = _mat_cache.get(key)
+        if cs is None:
+            idx = (np.arange(k0, k1, dtype=np.int64).reshape(-1, 1) * n) % nfft
+            cs = (ct[idx], st[idx])
+            if K <= step:                       # whole matrix in one block: keep it for the other columns / APIs of the same size
+                if len(_mat_cache) > 3:
+                    _mat_cache.clear()
+                _mat_cache[key] = cs
+        c, s = cs
+        if yi is None:
+            Xr[k0:k1] = c @ yr
+            Xi[k0:k1] = -(s @ yr)
+        else:
+            Xr[k0:k1] = c @ yr + s @ yi
+            Xi[k0:k1] = c @ yi - s @ yr
+    return Xr, Xi
+
+
+def _ref_ld(x, w, nfft):
+    """(P, |X|, ||x*w||_2) of the definition in extended precision; P and |X| stay longdouble.  x*w is formed in longdouble
+    from the float64 samples and window values (the library's own rounding of the products is part of its error budget)"""
+    x = np.asarray(x)
+    N = len(x)
+    wl = np.asarray(w, dtype=float).astype(_LD)
+    real = np.isrealobj(x)
+    yr = np.real(x).astype(_LD) * wl
+    yi = None if real else np.imag(x).astype(_LD) * wl
+    K = nfft // 2 + 1 if real else nfft
+    Xr, Xi = _dft_ld(yr, yi, nfft, K)
+    P2 = Xr * Xr + Xi * Xi
+    nrm = np.sqrt(np.sum(yr * yr) + (0 if yi is None else np.sum(yi * yi)))
+    return P2 / _LD(N), np.sqrt(P2), nrm
+
+
+def _perbin(x, w, nfft, got, label, desc):
+    """every returned bin against the extended-precision definition, each bin on its own scale (error model above)"""
+    x = np.asarray(x)
+    N = len(x)
+    if not _LD_OK or N * nfft > _LD_MAX or N == 0:
+        return []
+    P, A, nrm = _ref_ld(x, w, nfft)
+    got = np.asarray(got)
+    if got.shape != P.shape:
+        return []
+    with np.errstate(all="ignore"):
+        d = _LD(_PB_C * _EPS * np.log2(2.0 * nfft)) * nrm
+        tol = _LD(_PB_R * _EPS) * P + (2 * A * d + d * d) / _LD(N)
+        err = np.abs(got.astype(_LD) - P)
+        q = np.where(err == 0, _LD(0), err / np.where(tol > 0, tol, _LD(1e-4900)))
+    if not q.size:
+        return []
+    k = int(np.argmax(q))
+    e = float(q[k])
+    if np.isfinite(e) and e > _worst_pb[0]:
+        _worst_pb[0] = e
+    if not e > 1.0:
+        return []
+    # the tripwire reads better on a bin that came back as exactly 0.0 (if there is one among the failing bins)
+    z = np.nonzero((q > 1.0) & (got == 0))[0]
+    peak = float(np.max(P))
+    if z.size:
+        k = int(z[np.argmax(P[z])])
+        what = "is exactly 0.0 although"
+    else:
+        what = "is %.6e," % float(got[k])
+    with np.errstate(all="ignore"):
+        db = 10 * np.log10(float(P[k]) / peak) if peak > 0 and P[k] > 0 else float("-inf")
+        floor_db = 10 * np.log10(float(d * d / _LD(N)) / peak) if peak > 0 and d > 0 else float("-inf")
+    return ["%s bin %d %s |DFT(x*w)|^2/N = %.6e there (own-scale relative error %.2e; the bin lies %.1f dB under the largest bin "
+            "%.3e, double precision resolves bins down to %.1f dB; allowed error %.2e = 400 eps P_k + (2|X_k|d + d^2)/N, "
+            "d = 100 eps log2(2 NFFT) ||xw||; %d bins fail; N=%d NFFT=%d %s)" % (
+                label, k, what, float(P[k]), float(err[k] / P[k]) if P[k] > 0 else float("inf"), -db, peak, floor_db,
+                float(tol[k]), int(np.sum(q > 1.0)), N, nfft, desc)]
+
+
 def _pow2(N):
     """2**ceil(log2 N) in integer arithmetic"""
     p = 1
@@ -96,6 +246,10 @@ def _opt_tags(p):
         t.append("scale_by_freq:" + p["sbf"])
     if p.get("call"):
         t.append("class-call:" + p["call"])
+    if p.get("perbin", 1) == 0:
+        t.append("perbin:off(cost)")
+    if p.get("nomodel"):
+        t.append("model:off(cost)")
     return t
 
 
@@ -104,7 +258,8 @@ def _tags(p):
     n = p.get("nfft")
     return ["data:" + p.get("dkind", "?"), "complex" if np.iscomplexobj(x) else "real",
             "nfft:" + ("odd" if n % 2 else "even"), "win:" + p.get("window", "-"),
-            "N:" + ("1" if len(x) == 1 else "2-96" if len(x) <= 96 else "128-600" if len(x) <= 600 else ">600")] + _opt_tags(p)
+            "N:" + ("1" if len(x) == 1 else "2-96" if len(x) <= 96 else "128-600" if len(x) <= 600 else ">600")] + _opt_tags(p) + (
+                _hdr_tags(p) if str(p.get("dkind", "")).startswith("hdr") else [])
 
 
 # ---- 1-D function ---------------------------------------------------------------------------------
@@ -161,7 +316,7 @@ def impl_class(p):
 
 def model_1d(p):
     x = np.asarray(p["x"])
-    if len(x) > _MODEL_MAX_N:
+    if len(x) > _MODEL_MAX_N or p.get("nomodel"):
         return None
     w = _win(len(x), p["window"])
     return ("F", proto.request("sper", "F", [1 if np.isrealobj(x) else 0, p["nfft"]], [x, w]))
@@ -180,7 +335,7 @@ def _excess(got, ref):
     return e, (int(np.argmax(q)) if bad.any() else -1)
 
 
-def _check_column(x, w, nfft, got, label, desc):
+def _check_column(x, w, nfft, got, label, desc, perbin=True):
     """the property statement for one record: bins, realness, value of every bin, Parseval (complex data)"""
     x = np.asarray(x)
     ref = _ref(x, w, nfft)
@@ -209,6 +364,8 @@ def _check_column(x, w, nfft, got, label, desc):
         if abs(lhs - rhs) > 1e-9 * max(abs(rhs), 1e-300):
             out.append("%s: Parseval fails: mean(P)=%.12g, sum|xw|^2/N=%.12g (N=%d NFFT=%d %s)" % (
                 label, lhs, rhs, len(x), nfft, desc))
+    if not out and perbin:
+        out += _perbin(x, w, nfft, got, label, desc)       # every bin on its own scale (extended-precision reference)
     return out
 
 
@@ -218,7 +375,7 @@ def _desc(p):
 
 def _oracle_vals(p, got, label):
     x = np.asarray(p["x"])
-    return _check_column(x, _win(len(x), p["window"]), p["nfft"], got, label, _desc(p))
+    return _check_column(x, _win(len(x), p["window"]), p["nfft"], got, label, _desc(p), perbin=p.get("perbin", 1) != 0)
 
 
 def oracle_func(p):
@@ -288,7 +445,8 @@ def _tags_2d(p):
     return ["2d", "win:" + p["window"], "2d-data:" + p["dkind"], "2d-form:" + p.get("form", "array"),
             "2d-api:" + p.get("api", "func"), "2d-dtype:" + str(x.dtype),
             "2d-rows:" + ("1" if x.shape[0] == 1 else "<=24" if x.shape[0] <= 24 else ">24")] + (
-                ["2d-amp:" + p["amp"]] if p.get("amp") else []) + _opt_tags(p)
+                ["2d-amp:" + p["amp"]] if p.get("amp") else []) + _opt_tags(p) + (
+                    _hdr_tags(p) if str(p.get("dkind", "")).startswith("hdr") else [])
 
 
 # ---- Wiener-Khinchin ------------------------------------------------------------------------------
@@ -325,7 +483,85 @@ def oracle_wk(p):
         return ["Wiener-Khinchin fails: correlogram (rectangular, lag N-1, biased, NFFT=%d>=2N-1, %s, Y %s, data=%s) differs "
                 "from the periodogram by %.2e (N=%d)" % (p["nfft"], p["method"], "given" if p.get("ygiven") else "omitted",
                                                         p["dkind"], d, len(x))]
+    # per bin: the correlogram is a double precision FFT of lag products summed in double precision, so each bin carries an
+    # absolute error of the order eps x (N x total power) whatever its own size (measured constant: see _WK_C); a weak line is
+    # therefore compared on its own scale as long as it stands above that, and no bin may be flushed / clipped above it
+    N = len(x)
+    if _LD_OK and N * p["nfft"] <= _LD_MAX:
+        P, _, nrm = _ref_ld(x.astype(complex), np.ones(N), p["nfft"])
+        tol = _LD(_WK_C * _EPS * N) * nrm * nrm
+        err = np.abs(got.astype(_LD) - P)
+        k = int(np.argmax(err))
+        if tol > 0:
+            _worst_wk[0] = max(_worst_wk[0], float(err[k] / tol))
+        if err[k] > tol:
+            return ["Wiener-Khinchin fails at bin %d: correlogram %.6e, periodogram |DFT(x)|^2/N = %.6e (difference %.2e = %.2e of "
+                    "that bin; allowed 16 eps N sum|x|^2 = %.2e; largest bin %.3e; rectangular, lag N-1, biased, NFFT=%d>=2N-1, %s, "
+                    "Y %s, data=%s, N=%d)" % (k, float(got[k]), float(P[k]), float(err[k]),
+                                             float(err[k] / P[k]) if P[k] > 0 else float("inf"), float(tol), float(np.max(P)),
+                                             p["nfft"], p["method"], "given" if p.get("ygiven") else "omitted", p["dkind"], N)]
     return []
+
+
+# ---- coherent high-dynamic-range records ------------------------------------------------------------
+# Random / noisy records span some 40 dB; the "dyn" class has samples of very different size but a flat spectrum.  A bin far
+# under the largest one only exists when the record is coherent with the transform: sums of tones that fall ON bins of
+# DFT_NFFT (rectangular window, NFFT a multiple of N), or a constant / on-bin tone under a window with a fast-decaying skirt.
+
+_FAST = ["blackman", "blackman_harris", "blackman_nuttall", "bohman", "flattop", "hann", "hanning", "nuttall", "parzen",
+         "bartlett_hann", "hamming", "tukey"]
+_HDR_AMPS = [None, None, None, ("1e-100", 1e-100), ("1e100", 1e100), ("2^-30", 2.0 ** -30)]
+
+
+def _hdr_lines(nrng, N, cplx, i, umax=13.0):
+    """strong on-bin line plus 1-3 weak on-bin lines, amplitude ratios 10^-u with u cycling through 3..umax-0.5
+    (the default reaches 3e-13: -250 dB, 20 dB above what double precision resolves).
+    Returns (x, smallest ratio)"""
+    n = np.arange(N)
+    pool = np.arange(N) if cplx else np.arange(1, (N - 1) // 2 + 1)          # real: strictly between DC and Nyquist
+    nl = min(len(pool), 2 + int(nrng.integers(0, 3)))
+    bins = nrng.choice(pool, size=nl, replace=False)
+    span = max(1, int(umax - 3 + 0.5))
+    us = [0.0] + [min(umax, 3 + ((i + 2 * j) % span) + float(nrng.uniform(0, 0.5))) for j in range(nl - 1)]
+    x = np.zeros(N, dtype=complex if cplx else float)
+    for k, u in zip(bins, us):
+        ph = float(nrng.uniform(0, 2 * np.pi))
+        a = 10.0 ** -u
+        x = x + (a * np.exp(1j * (2 * np.pi * int(k) * n / N + ph)) if cplx else a * np.cos(2 * np.pi * int(k) * n / N + ph))
+    return x, 10.0 ** -max(us)
+
+
+def _hdr_skirt(nrng, N, cplx, i):
+    """constant, or a pure tone exactly on a bin of DFT_N: under a smooth window everything away from the line is skirt"""
+    n = np.arange(N)
+    if i % 3 == 0:
+        c = float(nrng.integers(1, 5))
+        return np.full(N, c) + (1j * float(nrng.integers(-3, 4)) if cplx else 0.0)
+    k = int(nrng.integers(0, N if cplx else N // 2 + 1))
+    ph = float(nrng.uniform(0, 2 * np.pi))
+    return np.exp(1j * (2 * np.pi * k * n / N + ph)) if cplx else np.cos(2 * np.pi * k * n / N + ph)
+
+
+def _hdr_int(nrng, N, i):
+    """integer dtype: A*(+-1 at Nyquist, or DC) plus a 1,0,-1,0 pattern (bin N/4), A = 10^6..10^14; N a multiple of 4"""
+    n = np.arange(N)
+    e = 6 + i % 9
+    A = 10 ** e
+    s1 = np.where(n % 2 == 0, 1, -1) if i % 2 else np.ones(N, dtype=np.int64)
+    s2 = np.array([1, 0, -1, 0], dtype=np.int64)[n % 4] * int(nrng.integers(1, 4))
+    return (A * s1 + s2).astype(np.int64), 0.5 / A
+
+
+def _hdr_tags(p):
+    t = []
+    if p.get("ratio"):
+        t.append("hdr-weakest-line:1e%d" % int(np.floor(np.log10(p["ratio"]) + 1e-9)))
+    if p.get("hdr_amp"):
+        t.append("hdr-amp:" + p["hdr_amp"])
+    if p.get("nfft_mult"):
+        t.append("hdr-nfft:%dN" % p["nfft_mult"])
+    return t
+
 
 
 KINDS = {
@@ -339,7 +575,8 @@ KINDS = {
            "key": _key, "nontrivial": _nontrivial,
            "tags": lambda p: ["wk:" + p["method"], "wk-data:" + p["dkind"], "wk-Y:" + ("given" if p.get("ygiven") else "omitted"),
                               "wk-dtype:" + str(np.asarray(p["x"]).dtype),
-                              "wk-N:" + ("1" if len(p["x"]) == 1 else "2-32" if len(p["x"]) <= 32 else ">32")]},
+                              "wk-N:" + ("1" if len(p["x"]) == 1 else "2-32" if len(p["x"]) <= 32 else ">32")] + (
+                                  _hdr_tags(p) if str(p.get("dkind", "")).startswith("hdr") else [])},
 }
 
 
@@ -421,6 +658,9 @@ def gen(rng, nrng, tier):
         nfft = [N, N + 1, 2 * N - 1, 2 * N][int(nrng.integers(0, 4))]
         api = "func" if nrng.integers(0, 2) else "class"
         q = {"x": x, "dkind": dk, "nfft": nfft, "window": names[int(nrng.integers(0, len(names)))]}
+        if N * nfft > 1.2e7 and (quick or i >= 4):
+            q["perbin"] = 0          # the extended-precision reference of a 4099-point record costs 1-1.5 s: one per round of the
+            #                          thorough tier only (the per-bin check is new; the max-norm checks of these records are unchanged)
         q.update(_options(nrng, api))
         yield (api, q)
 
@@ -490,5 +730,115 @@ def gen(rng, nrng, tier):
         q = {"x": x, "dkind": dk, "nfft": nfft, "window": "rectangular",
              "method": "xcorr" if i % 2 else "CORRELATION"}
         if (i // 2) % 2:
+            q["ygiven"] = True
+        yield ("wk", q)
+
+    # ---- coherent high-dynamic-range records (see _hdr_lines / _hdr_skirt / _hdr_int): every bin on its own scale ----------
+    rect = ["rectangular", "rectangle"]
+    calls = [None, "call", "run", "alias"]
+    # (a) sums of on-bin lines, rectangular window, NFFT = N, 2N, 3N, 4N; any N >= 8 (odd, prime, power of two)
+    n_lines = 36 if quick else 100
+    sizes = [64, 16, 30, 128, 9, 50, 97, 256, 12, 33, 100]            # 11 entries: independent of the period-2/3/4 choices below
+    for i in range(n_lines):
+        N = sizes[i % len(sizes)] if i % 3 else int(nrng.integers(8, 97))
+        cplx = bool((i // 2) % 2)
+        x, ratio = _hdr_lines(nrng, N, cplx, i)
+        m = [1, 1, 2, 4, 3, 2][(i // 4) % 6]
+        api = "func" if i % 2 == 0 else "class"
+        q = {"dkind": "hdr-lines", "nfft": m * N, "nfft_mult": m, "window": rect[(i // 3) % 2], "ratio": ratio}
+        a = _HDR_AMPS[(i // 5) % len(_HDR_AMPS)]
+        if a:
+            x = x * a[1]
+            q["hdr_amp"] = a[0]
+        q["x"] = x
+        if m == 1 and i % 5 == 0:
+            q["nfft_arg"] = ["None", "omit"][(i // 5) % 2]
+        q.update(_options(nrng, api))
+        if api == "class":
+            q.pop("call", None)
+            if calls[(i // 2) % 4]:
+                q["call"] = calls[(i // 2) % 4]            # all four ways of making the class compute, in turn
+        yield (api, q)
+    # (b) constant / on-bin tone under a window: the skirt of the window IS the spectrum; N >= 64, any NFFT >= N
+    n_sk = 30 if quick else 66
+    sk_sizes = [128, 256, 64, 200, 500, 256, 1024] if quick else [128, 256, 64, 200, 500, 512, 96, 1024, 300, 2048, 257]   # 7 / 11 entries
+    for i in range(n_sk):
+        N = sk_sizes[i % len(sk_sizes)]
+        cplx = bool((i // 2) % 2)
+        x = _hdr_skirt(nrng, N, cplx, i)
+        name = _FAST[(i + i // len(_FAST)) % len(_FAST)] if i % 4 else names[int(nrng.integers(0, len(names)))]
+        nfft = [N, 2 * N, N + 1, 2 * N - 1, _pow2(N + 1), 4 * N][(i // 3) % 6] if N < 500 else (
+            [N, N + 1, 2 * N - 1, 2 * N][(i // 3) % 4] if N <= 1024 else N)          # cost of the model / of the reference
+        api = "func" if i % 2 == 0 else "class"
+        q = {"dkind": "hdr-skirt", "nfft": nfft, "window": name}
+        if N * nfft > _DIRECT_MAX:
+            q["nomodel"] = 1         # the list-based model needs 0.2-0.5 s for such a record and compares in max-norm only: it has
+            #                          nothing to say about bins 160 dB down; the smaller records of this class still go through it
+        a = _HDR_AMPS[(i // 3) % len(_HDR_AMPS)]
+        if a:
+            x = x * a[1]
+            q["hdr_amp"] = a[0]
+        q["x"] = x
+        q.update(_options(nrng, api))
+        yield (api, q)
+    # (c) integer dtype with 120-280 dB between its two lines
+    for i in range(9 if quick else 18):
+        N = [8, 16, 64, 12, 100, 32][i % 6]
+        x, ratio = _hdr_int(nrng, N, i)
+        m = [1, 2, 4][(i // 2) % 3]
+        api = "func" if i % 2 == 0 else "class"
+        q = {"x": x, "dkind": "hdr-int", "nfft": m * N, "nfft_mult": m, "window": rect[i % 2], "ratio": ratio}
+        if i % 4 == 1:
+            q["dkind"] = "list"                       # the same integers as Python floats in a list
+            q["x"] = x.astype(float)
+        q.update(_options(nrng, api))
+        yield (api, q)
+    # (d) 2-D: a high-dynamic-range column next to unrelated columns of very different size (per column, not per matrix)
+    n_h2 = 16 if quick else 32
+    for i in range(n_h2):
+        skirt = i % 4 == 3
+        r = [128, 256][(i // 4) % 2] if skirt else [64, 16, 30, 97, 128, 12][(i // 2) % 6]
+        c = 2 + int(nrng.integers(0, 3))
+        cplx = bool(i % 2)
+        cols = []
+        ratio = 1.0
+        for j in range(c):
+            t = (i + j) % 4
+            if t == 0 or (skirt and t == 2):
+                col = nrng.standard_normal(r) + (1j * nrng.standard_normal(r) if cplx else 0)
+                col = col * [1e-12, 3.0, 1e7][(i + j) % 3]
+            elif skirt:
+                col = _hdr_skirt(nrng, r, cplx, i + j)
+            else:
+                col, rt = _hdr_lines(nrng, r, cplx, i + 3 * j)
+                ratio = min(ratio, rt)
+            cols.append(np.asarray(col, dtype=complex if cplx else float))
+        if not skirt and ratio == 1.0:
+            cols[0], ratio = _hdr_lines(nrng, r, cplx, i + 5)
+        x = np.stack(cols, axis=1)
+        m = 1 if skirt else [1, 2, 1, 4][(i // 3) % 4]
+        q = {"x": x, "dkind": "hdr-skirt" if skirt else "hdr-lines", "nfft": m * r,
+             "window": _FAST[i % len(_FAST)] if skirt else rect[i % 2], "form": ["array", "list", "fortran", "tview"][(i // 2) % 4]}
+        if not skirt:
+            q["ratio"] = ratio
+            q["nfft_mult"] = m
+        a = _HDR_AMPS[(i // 2) % len(_HDR_AMPS)]
+        if a:
+            q["x"] = x * a[1]
+            q["hdr_amp"] = a[0]
+        api = "class" if i % 3 == 2 else "func"
+        if api == "class":
+            q["api"] = "class"
+        q.update(_options(nrng, api))
+        yield ("twod", q)
+    # (e) Wiener-Khinchin on records with lines down to 1e-6 of the strongest (what the double precision lag sums resolve)
+    for i in range(12 if quick else 24):
+        N = [16, 32, 9, 64, 24, 50][i % 6]
+        cplx = bool((i // 2) % 2)
+        x, ratio = _hdr_lines(nrng, N, cplx, i, umax=6.0)
+        m = [2, 4, 3][(i // 3) % 3]
+        q = {"x": np.asarray(x, dtype=complex if cplx else float), "dkind": "hdr-lines", "nfft": m * N, "nfft_mult": m,
+             "window": "rectangular", "method": "xcorr" if i % 2 else "CORRELATION", "ratio": ratio}
+        if (i // 4) % 2:
             q["ygiven"] = True
         yield ("wk", q)
